@@ -18,7 +18,7 @@ add("C03", "exploration",
     "trusted: reference decoder refmodel::ref_fixed and the IANA keyword table mc/src/iana.rs; byte values beyond the walking-byte/boundary alphabets are not covered",
     "bounded-exhaustive input enumeration vs reference decoder (explicit-state, stateless)", "DESIGN.md §5 C03", "E-ENUM")
 add("C06", "model_checking",
-    "Explicit-state model checking of the real template caches: stateright BFS to the FIXPOINT of the reachable graph whose states are (canonical content of the real caches of every parser instance, reference latest-wins cache) and whose transitions apply one action of an about 70-action-per-instance alphabet (T/OT/D/TD/DT/[T++D] for V9 and IPFIX over two or three ids and two or three layouts, the same from another exporter (other source id / observation domain), multi-record template flowsets, ill-formed and withdrawal-shaped template records, record-less data sets, V5, V7, garbage, unknown version, truncated and incomplete templates, mixed buffer) with the real parse_bytes, on two instances with different allowed sets. Every transition checks: decode = reference under the latest definition; caches = reference prediction (so inert input changes nothing); no eviction; instance and protocol isolation; buffer = one-packet-per-call delivery; and soundness of state merging (parser rebuilt from the snapshot vs parsers that replayed the full interleaved history). Complemented by (a) a bounded exploration WITHOUT state merging - every history of <=3 (thorough 4) calls over the single-id two-instance alphabet, last call judged against the reference - which sees state kept outside the caches, and (b) an explicit never-evicted-at-scale enumeration (up to 65 279 distinct ids).",
+    "Explicit-state model checking of the real template caches: stateright BFS to the FIXPOINT of the reachable graph whose states are (canonical content of the real caches of every parser instance, reference latest-wins cache) and whose transitions apply one action of an about 70-action-per-instance alphabet (T/OT/D/TD/DT/[T++D] for V9 and IPFIX over two or three ids and two or three layouts, the same from another exporter (other source id / observation domain), multi-record template flowsets incl. one id defined twice, flowsets/messages truncated inside their first or second template record, ill-formed and withdrawal-shaped template records, record-less data sets, V5, V7, garbage, unknown version, truncated and incomplete templates, mixed buffer) with the real parse_bytes, on two instances with different allowed sets. Every transition checks: decode = reference under the latest definition; caches = reference prediction (so inert input changes nothing); no eviction; instance and protocol isolation; buffer = one-packet-per-call delivery; and soundness of state merging (parser rebuilt from the snapshot vs parsers that replayed the full interleaved history). Complemented by (a) a bounded exploration WITHOUT state merging - every history of <=3 (thorough 4) calls over the single-id two-instance alphabet, last call judged against the reference - which sees state kept outside the caches, and (b) an explicit never-evicted-at-scale enumeration (up to 65 279 distinct ids).",
     "closed under the stated alphabet only; trusted: refmodel.rs, explore.rs, stateright's fingerprint deduplication",
     "explicit-state model checking of the implementation (stateright BFS to fixpoint) against a reference model", "DESIGN.md §5 C06", "E-HIST")
 add("C07", "model_checking",
@@ -31,11 +31,11 @@ add("C08", "exploration",
     "bounded-exhaustive round-trip enumeration (explicit-state, stateless)", "DESIGN.md §5 C08", "E-ENUM")
 
 add("C04", "model_checking",
-    "Explicit enumeration of conformant V9 streams (histories of 1..3 parse_bytes calls on one parser) from finite menus - every field type 1..=520 x supported width x value menu, all class-representative templates of <=2 (thorough 3) fields, all scope/option lists, all flowset sequences of <=3 (thorough 4) over an 8-set menu, template delivered in the same packet / same buffer / an earlier call - each call judged against an independent RFC 3954 reference decoder with a latest-wins reference cache.",
+    "Explicit enumeration of conformant V9 streams (histories of 1..3 parse_bytes calls on one parser) from finite menus - every field type 1..=520 x supported width x value menu, all class-representative templates of <=4 (thorough 5) fields, all scope/option lists, all flowset sequences of <=3 (thorough 5) over an 11-set menu, template delivered in the same packet / same buffer / an earlier call - each call judged against an independent RFC 3954 reference decoder with a latest-wins reference cache.",
     "trusted: refmodel::ref_v9/decode; the field-number -> (name, class) table is the library's (pinned by its snapshot tests); values outside the value menus and templates longer than the bound are not covered",
     "bounded-exhaustive enumeration of call histories vs reference model (explicit-state)", "DESIGN.md §5 C04", "E-ENUM")
 add("C05", "model_checking",
-    "Explicit enumeration of conformant IPFIX streams (1..3 calls): every IE 0..=520 (+enterprise variants) x supported width x value menu, variable-length IEs x every pair of consecutive record lengths from {0,1,2,254,255,300} x short/long prefix, all class-representative templates of <=2 (thorough 3) fields, options templates, 1..=3 template records per set, all set sequences of <=3 (thorough 4) incl. data for an undefined id - each call judged against an independent RFC 7011 reference decoder; recorded defects are modelled executably so the strongest remaining relation is still checked.",
+    "Explicit enumeration of conformant IPFIX streams (1..3 calls): every IE 0..=520 (+enterprise variants) x supported width x value menu, variable-length IEs x every pair of consecutive record lengths from {0,1,2,254,255,300} x short/long prefix, all class-representative templates of <=4 (thorough 5) fields, options templates, 1..=3 template records per set, all set sequences of <=3 (thorough 5) over an 11-set menu incl. data for an undefined id - each call judged against an independent RFC 7011 reference decoder; recorded defects are modelled executably so the strongest remaining relation is still checked.",
     "trusted: refmodel::ref_ipfix_sets/decode and the defect models refmodel::Q; IE -> (name, class) table is the library's",
     "bounded-exhaustive enumeration of call histories vs reference model (explicit-state)", "DESIGN.md §5 C05", "E-ENUM")
 
@@ -48,15 +48,15 @@ add("C10", "model_checking",
     "trusted: reexport.rs",
     "bounded-exhaustive enumeration of call histories with a round-trip oracle (explicit-state)", "DESIGN.md §5 C10", "E-ENUM")
 add("C11", "model_checking",
-    "Every sequence of 1..=5 (thorough 6) packets over the 12-packet self-delimiting menu (all four versions, templates defined by early packets and needed by later ones, IPFIX data for an absent id) is delivered under ALL 2^(n-1) partitions into consecutive parse_bytes calls on a fresh parser; concatenated results and final cache snapshot must equal one-packet-per-call delivery. Maximal chains up to the datagram limit are compared all-in-one vs one-per-call.",
+    "Every sequence of 1..=5 (thorough 6) packets over the 17-packet self-delimiting menu (header fields - source id, observation domain, sequence number, clocks - varying with the position) (all four versions, templates defined by early packets and needed by later ones, IPFIX data for an absent id) is delivered under ALL 2^(n-1) partitions into consecutive parse_bytes calls on a fresh parser; concatenated results and final cache snapshot must equal one-packet-per-call delivery. Maximal chains up to the datagram limit are compared all-in-one vs one-per-call.",
     "sequences whose one-per-call run contains an error element are outside the property's domain (counted, not judged); trusted: c11::judge",
     "bounded-exhaustive enumeration of sequences x all partitions (stateless exploration of real code, differential oracle)", "DESIGN.md §5 C11", "E-ENUM")
 add("C12", "model_checking",
-    "All 64 allowed-version sets (16 subsets of {5,7,9,10} x extras {none, {6}, {0,11,65535}, 24 numbers aliasing 5/7/9/10 under mod-2^k masks and byte swap}) x every buffer of 1..=3 (thorough 4) packets over a 16-packet menu x 4 prior cache states, each compared with a parser that allows all 65 536 versions started from the same state: result = maximal leading part with allowed versions; caches = those of the all-allowing parser fed only that part; unknown allowed versions are UnknownVersion errors.",
+    "All 64 allowed-version sets (16 subsets of {5,7,9,10} x extras {none, {6}, {0,11,65535}, 24 numbers aliasing 5/7/9/10 under mod-2^k masks and byte swap}) x every buffer of 1..=3 (thorough 4) packets over a 21-packet menu x 6 prior histories delivered under the configuration (two contain unparsable versions and garbage), the buffer delivered twice; EVERY call of the history is compared with a parser that allows all 65 536 versions started from the state the subject should be in: result = maximal leading part with allowed versions; caches = those of the all-allowing parser fed only that part; unknown allowed versions are UnknownVersion errors; allowed_versions itself is unchanged by every call.",
     "trusted: c12::judge",
     "bounded-exhaustive enumeration of configurations x buffers x states (differential oracle)", "DESIGN.md §5 C12", "E-ENUM")
 add("C13", "model_checking",
-    "Parser and conversion are run together over: V5/V7 walking-byte and all materialised counts; V9 and IPFIX templates made of EVERY subset of the projected fields (2048 subsets: source/destination address each absent/IPv4/IPv6/both, ports, protocol, first, last, MACs) in three field orders, 1..=3 records, 1..=2 data sets; the full template together with every subset template in one packet; all-zero/all-ones values of every projected field; and the flattening helper over all chains of <=3 (thorough 4) packets x 4 prior cache states. The expected view is the projection of the independent reference decode (one flow per record, member = decoded field, None iff the template lacks it).",
+    "Parser and conversion are run together over: V5/V7 walking-byte and all materialised counts; V9 and IPFIX templates made of EVERY subset of the projected fields (2048 subsets: source/destination address each absent/IPv4/IPv6/both, ports, protocol, first, last, MACs) in three field orders, 1..=3 records, 1..=2 data sets; every value of the class value menus (thresholds, special-purpose addresses, all 256 protocol numbers) in every projected field; the full template together with every subset template in one packet; all-zero/all-ones values of every projected field; and the flattening helper over all chains of <=3 (thorough 4) packets x 4 prior cache states. The expected view is the projection of the independent reference decode (one flow per record, member = decoded field, None iff the template lacks it).",
     "trusted: refmodel.rs and c13::project; IPv4 is projected when both address families are present",
     "bounded-exhaustive enumeration of template subsets vs projection of the reference model", "DESIGN.md §5 C13", "E-ENUM")
 add("C14", "fault_enumeration",
